@@ -10,6 +10,7 @@ public with a `seed` parameter); argument recipes are looked up by name.  A seed
 recipe is counted under unprobed:<name> (more than 2 of them make the run inconclusive).
 """
 import inspect
+import copy
 import random
 import types
 from itertools import product
@@ -961,6 +962,13 @@ def extra_coverage(mon):
     }
 
 
+def _freeze(result):
+    try:
+        return copy.deepcopy(result)
+    except Exception:  # not copyable (never seen on the unchanged tree): compare the live object as before
+        return result
+
+
 def run_case(mon, kind, idx, rng):
     if not NAMES:
         return
@@ -1034,7 +1042,9 @@ def run_case(mon, kind, idx, rng):
             args, kw = build()
             before = [c16.fingerprint(x) for x in args] + [c16.fingerprint(x) for x in kw.values()] if same_objects else None
             try:
-                outs.append(("returned", fn(*args, **kw, seed=seed)))
+                # the result is frozen (deep-copied) at once: a later call that hands out or edits the same cached object
+                # must not be able to make the two results look alike after the fact
+                outs.append(("returned", _freeze(fn(*args, **kw, seed=seed))))
             except refusals as exc:
                 outs.append(("raised", type(exc).__name__))
             if before is not None:
